@@ -275,7 +275,16 @@ class Engine:
             return True
         if getattr(self, "_in_must_fallback", False):
             return False
-        return self._check(st, z3.Not(cond), scale=60) == z3.unsat
+        res = self._check(st, z3.Not(cond), scale=60) == z3.unsat
+        if not res and __import__("os").environ.get("PYVC_DEBUG_MUST"):
+            n = self.stats["must_dumps"] = self.stats.get("must_dumps", 0) + 1
+            sv = self.feas_solver()
+            for f in st.pc:
+                sv.add(f)
+            sv.add(z3.Not(cond))
+            open("/tmp/must_fail_%d.smt2" % n, "w").write(sv.to_smt2())
+            print("MUST-FAIL %d: %s" % (n, str(cond)[:600]))
+        return res
 
     # ------------------------------------------------------------------ spec functions
     def declare_specs(self):
@@ -1052,7 +1061,11 @@ class Engine:
     def getattr_(self, x, attr, ec, line):
         h = ec.st.heap
         fx = getattr(ec, "fx", None)
+        if attr == "__class__":
+            return T("cls", typeid(toV(x)))
         if x.k != "V":
+            if x.k == "cls" and attr in ("__name__", "__qualname__"):
+                return T("s", z3.Function("class_name", IntS, StrS)(_z(x.t)))
             if x.k == "cls":
                 raise OutOfSubset("class attribute %s (line %d)" % (attr, line))
             ec.may_raise(z3.BoolVal(True), "AttributeError", line, "attribute %s on %s" % (attr, x.k))
@@ -1223,6 +1236,16 @@ class Engine:
             qvars.append(q)
             guards.append(h.dhas(V.rv(d), q))
             pats.append(h.dhas(V.rv(d), q))
+            bind_target(g.target, tV(q))
+        elif isinstance(dom, ast.Call) and isinstance(dom.func, ast.Name) and dom.func.id == "keys_old":
+            # keys of a dict / attribute names of an object in the OLD (entry) heap
+            if ec.old is None:
+                raise CheckerError("keys_old() outside a postcondition / invariant")
+            d = toV(self.ev(dom.args[0], ec))
+            q = fresh("q", V)
+            qvars.append(q)
+            guards.append(ec.old.heap.dhas(V.rv(d), q))
+            pats.append(ec.old.heap.dhas(V.rv(d), q))
             bind_target(g.target, tV(q))
         elif isinstance(dom, ast.Call) and isinstance(dom.func, ast.Name) and dom.func.id == "values_any":
             q = fresh("q", V)
@@ -1727,6 +1750,12 @@ class Engine:
         j = self.coerce(self.ev(e.args[1], ec), "i", ec)
         return tV(ec.st.heap.lget(V.rv(l), j))
 
+    def sp_key_index(self, e, ec):
+        """key_index(d, k): position of key k in the iteration order of dict d (meaningful when has(d, k))"""
+        d = toV(self.ev(e.args[0], ec))
+        k = toV(self.ev(e.args[1], ec))
+        return T("i", ec.st.heap.sel("didx", V.rv(d))[k])
+
     def sp_key_at(self, e, ec):
         d = toV(self.ev(e.args[0], ec))
         j = self.coerce(self.ev(e.args[1], ec), "i", ec)
@@ -1882,27 +1911,50 @@ class Engine:
             return T("i", z3.If(smt.is_intlike(v), smt.num_int(v), z3.If(is_r(v), z3.ToInt(V.fv(v)), f(V.sv(v)))))
         raise OutOfSubset("int() of %s" % x.k)
 
+    def attr_key(self, a, ec, line):
+        """attribute-name argument of hasattr/getattr/setattr: a constant or a computed string"""
+        if isinstance(a, ast.Constant) and isinstance(a.value, str):
+            return sV(a.value)
+        x = normT(self.ev(a, ec))
+        if x.k == "s":
+            return V.s(x.t)
+        if x.k != "V":
+            ec.may_raise(z3.BoolVal(True), "TypeError", line, "attribute name must be string")
+            return fresh("badattr", V)
+        ec.may_raise(z3.Not(is_s(x.t)), "TypeError", line, "attribute name must be string")
+        return x.t
+
     def bi_hasattr(self, e, ec):
         x = self.ev(e.args[0], ec)
-        a = e.args[1]
-        if not (isinstance(a, ast.Constant) and isinstance(a.value, str)):
-            raise OutOfSubset("hasattr with computed name")
+        key = self.attr_key(e.args[1], ec, e.lineno)
         v = toV(x)
-        return T("b", z3.And(is_obj(v), ec.st.heap.dhas(V.rv(v), sV(a.value))))
+        return T("b", z3.And(is_obj(v), ec.st.heap.dhas(V.rv(v), key)))
 
     def bi_getattr(self, e, ec):
         x = self.ev(e.args[0], ec)
-        a = e.args[1]
-        if not (isinstance(a, ast.Constant) and isinstance(a.value, str)):
-            raise OutOfSubset("getattr with computed name")
+        key = self.attr_key(e.args[1], ec, e.lineno)
         v = toV(x)
         h = ec.st.heap
-        present = z3.And(is_obj(v), h.dhas(V.rv(v), sV(a.value)))
+        present = z3.And(is_obj(v), h.dhas(V.rv(v), key))
         if len(e.args) == 3:
             d = self.ev(e.args[2], ec)
-            return tV(z3.If(present, h.dget(V.rv(v), sV(a.value)), toV(d)))
+            if self.must(ec.st, z3.Implies(ec.g(), present)):
+                return tV(h.dget(V.rv(v), key))
+            return tV(z3.If(present, h.dget(V.rv(v), key), toV(d)))
         ec.may_raise(z3.Not(present), "AttributeError", e.lineno, "getattr")
-        return tV(h.dget(V.rv(v), sV(a.value)))
+        return tV(h.dget(V.rv(v), key))
+
+    def bi_setattr(self, e, ec):
+        x = self.ev(e.args[0], ec)
+        key = self.attr_key(e.args[1], ec, e.lineno)
+        val = self.mat(self.ev(e.args[2], ec), ec)
+        v = toV(x)
+        ec.may_raise(z3.Not(is_obj(v)), "AttributeError", e.lineno, "setattr on a non-object")
+        if ec.guard:
+            raise OutOfSubset("conditional setattr inside an expression (line %d)" % e.lineno)
+        self.assumptions.add("A-SETATTR: setattr on an object stores the attribute (no __setattr__ / property / slots interception)")
+        self.dict_set(ec, V.rv(v), key, toV(val))
+        return tV(V.none)
 
     def bi_print(self, e, ec):
         return tV(V.none)
@@ -2587,8 +2639,57 @@ class Engine:
                 fx.contract.func, fx.contract.opts["frame_keep"]))
         return [V.rv(ec.st.env[g].t) for g in names if g in ec.st.env and ec.st.env[g].k == "V"]
 
+    def frame_ref(self, st, v):
+        """the object named by a frame entry: rv(v) when v is known to be a reference (so that reads through the same
+        expression resolve syntactically), else guarded - a non-reference (e.g. None) names no object"""
+        v = simp(v)
+        if self.must(st, is_ref(v)):
+            return V.rv(v)
+        return z3.If(is_ref(v), V.rv(v), z3.IntVal(-1))
+
+    def parse_frame(self, entries, env, st, fx=None, old=None):
+        """frame entries (`assigns` of a contract, `modifies` of a loop), read in state st with variables env:
+             'x' / any expression        the object it evaluates to (shallow: its own attributes / items)
+             "attr(expr, 'name')"        only the attribute / key `name` of that object
+           returns (object refs, [(ref, key V term)])"""
+        objs, keyed = [], []
+        for text in entries:
+            tree = ast.parse(text.strip(), mode="eval").body
+            ecm = EC(St(dict(env), Heap(st.heap.a, st.heap.alloc), st.pc, ghost=dict(st.ghost)), spec=True, old=old)
+            ecm.fx = fx
+            if isinstance(tree, ast.Call) and isinstance(tree.func, ast.Name) and tree.func.id == "attr" and len(tree.args) == 2:
+                v = toV(self.ev(tree.args[0], ecm))
+                k = toV(self.ev(tree.args[1], ecm))
+                keyed.append((self.frame_ref(st, v), k))
+            else:
+                objs.append(self.frame_ref(st, toV(self.ev(tree, ecm))))
+        return objs, keyed
+
+    def apply_frame_havoc(self, st, objs, keyed):
+        """the listed objects (all heap components) and the listed attributes (membership + value; the key enumeration of the
+        object) become arbitrary; every other object / attribute is unchanged; the allocation frontier may move"""
+        h = st.heap
+        a = dict(h.a)
+        for r in objs:
+            for n in HEAP_NAMES:
+                a[n] = z3.Store(a[n], r, fresh(n + "_at", HEAP_SORTS[n].range()))
+        for r, k in keyed:
+            a["dhas"] = z3.Store(a["dhas"], r, z3.Store(Heap(a, h.alloc, st).sel("dhas", r), k, fresh("has_at", BoolS)))
+            a["dval"] = z3.Store(a["dval"], r, z3.Store(Heap(a, h.alloc, st).sel("dval", r), k, fresh("val_at", V)))
+            for n in ("dlen", "dkey", "didx"):
+                a[n] = z3.Store(a[n], r, fresh(n + "_at", HEAP_SORTS[n].range()))
+        na = fresh("alloc", IntS)
+        st.assume(na >= h.alloc)
+        h.alloc = na
+        h.a = a
+        from .tr import closed_at
+        for r in list(objs) + [r for r, _ in keyed]:
+            for f in dict_wf_at(h, r) + closed_at(h, r):
+                st.assume(f)
+            st.assume(h.llen(r) >= 0)
+
     def havoc_heap(self, st, assigns, penv, line, keep=()):
-        """assigns entries: '*' (everything) or names of parameters whose object (shallow) may change"""
+        """assigns entries: '*' (everything), parameter names / expressions (that object, shallow), attr(expr, 'name')"""
         h = st.heap
         a = dict(h.a)
         if "*" in assigns:
@@ -2603,20 +2704,8 @@ class Engine:
             for f in heap_wf_axioms(h):
                 st.assume(f)
             return
-        for name in assigns:
-            v = toV(penv[name])
-            r = V.rv(v)
-            for n in HEAP_NAMES:
-                a[n] = z3.Store(a[n], r, fresh(n + "_at", HEAP_SORTS[n].range()))
-        na = fresh("alloc", IntS)
-        st.assume(na >= h.alloc)
-        h.alloc = na
-        h.a = a
-        from .tr import closed_at
-        for name in assigns:
-            for f in dict_wf_at(h, V.rv(toV(penv[name]))) + closed_at(h, V.rv(toV(penv[name]))):
-                st.assume(f)
-            st.assume(h.llen(V.rv(toV(penv[name]))) >= 0)
+        objs, keyed = self.parse_frame(assigns, penv, st)
+        self.apply_frame_havoc(st, objs, keyed)
 
     def call_opaque(self, name, recv, e, ec, desc):
         """opaque callee: fresh result; heap havocked unless desc['pure']; may raise desc['raises'] (default Exception)"""
